@@ -87,8 +87,13 @@ def gen_mq(rng: random.Random, tier: str) -> dict:
     reactions = []
     for _ in range(rng.randint(1, 8)):
         reactions.append([rng.choices(REACTIONS, weights=weights)[0], rng.choice(delays), rng.choice(delays)])
+    names = [f"c{i}" for i in range(n_cons)]
+    if n_cons > 1 and rng.random() < 0.25:
+        for i in rng.sample(range(n_cons), rng.randint(2, n_cons)):
+            names[i] = "worker"  # distinct consumer entities (replicas) carrying one name
     return {
         "n_consumers": n_cons,
+        "consumer_names": names,
         "initial_subs": initial,
         "latency": latency,
         "redelivery_delay": redelivery_delay,
@@ -154,6 +159,7 @@ class _H:
         self.redelivery_due = {}  # ns -> list[mid]
         self.n_timeouts_granted = 0
         self.rx_index = 0
+        self.active = {}  # consumer uid -> subscribed (harness-side truth)
         self.payloads = {}  # pid -> payload Event object handed to publish()
         self.reused_labels = set()  # payload labels (context["pid"]) carried by more than one publish call
         self.n_acks_effective = 0
@@ -163,9 +169,12 @@ class _H:
 
 
 class _Consumer(Entity):
-    def __init__(self, name, ctx):
+    """`uid` is the harness-side identity of the entity object; `name` may be shared by several consumers."""
+
+    def __init__(self, name, ctx, uid=None):
         super().__init__(name)
         self.ctx = ctx
+        self.uid = uid or name
 
     def handle_event(self, event):
         ctx = self.ctx
@@ -188,7 +197,7 @@ class _Consumer(Entity):
             pid = None  # filled in after the run, once publish() has returned the id
         rec = {
             "t": now,
-            "c": self.name,
+            "c": self.uid,
             "mid": mid,
             "pid": pid,
             "attempt": attempt,
@@ -335,15 +344,17 @@ class _Driver(Entity):
             return [Event(time=self.now, event_type="poll", target=q)]
         if kind in ("sub", "unsub"):
             c = ctx["consumers"][op["c"]]
-            before = q.consumer_count
+            # client-boundary truth: after subscribe(c) the entity c is subscribed, after unsubscribe(c) it is not
+            before = h.active.get(c.uid, False)
             if kind == "sub":
                 q.subscribe(c)
             else:
                 q.unsubscribe(c)
             h.sub_instants.add(now)
-            if q.consumer_count != before:
+            h.active[c.uid] = kind == "sub"
+            if h.active[c.uid] != before:
                 h.membership_changes += 1
-                h.sub_changes[c.name].append((now, kind == "sub"))
+                h.sub_changes[c.uid].append((now, kind == "sub"))
             return None
         if kind == "sweep":
             out = []
@@ -435,14 +446,17 @@ def run_mq(case: dict) -> Result:
         "poll_after_reaction": bool(case.get("poll_after_reaction")),
         "seen_count": {},
     }
-    consumers = [_Consumer(f"c{i}", ctx) for i in range(case["n_consumers"])]
+    cnames = case.get("consumer_names") or [f"c{i}" for i in range(case["n_consumers"])]
+    consumers = [_Consumer(cnames[i], ctx, uid=f"c{i}") for i in range(case["n_consumers"])]
+    names_shared = len(set(cnames)) < len(cnames)
     ctx["consumers"] = consumers
     drv = _Driver("drv", ctx)
     initial = set(case.get("initial_subs", []))
     for i, c in enumerate(consumers):
-        h.sub_changes[c.name] = []
+        h.sub_changes[c.uid] = []
         if i in initial:
             q.subscribe(c)
+            h.active[c.uid] = True
 
     # ---- op schedule: scripted part, then a drain phase
     ops = sorted(case["ops"], key=lambda o: o["t"])
@@ -568,6 +582,14 @@ def run_mq(case: dict) -> Result:
                         "witness": {"t_ns": t, "pending_count": pc, "in_flight_count": fc, "pending": n_pending, "in_flight": n_inflight},
                     }
                 mon["root"] = True
+        n_active = sum(1 for v in h.active.values() if v)
+        res.count("consumer_count_checks")
+        if q.consumer_count != n_active:
+            report(
+                "subscribed-consumers",
+                "consumer_count-differs-from-subscribed-entities/" + ("consumer-entities-share-a-name" if names_shared else "distinct-names"),
+                f"t={t}ns {n_active} consumer entities are subscribed (subscribe() returned, no unsubscribe since) but consumer_count={q.consumer_count}",
+            )
         # conservation over publish CALLS (harness-side ids, independent of payload identity):
         # every accepted publish is pending, in flight, acknowledged or dead-lettered
         accepted = len(h.pub_seq) - len(h.refused)
@@ -664,7 +686,7 @@ def run_mq(case: dict) -> Result:
     t_end = mon["prev_t"]
 
     # ---- per-receipt oracles
-    init_names = {consumers[i].name for i in initial if i < len(consumers)}
+    init_names = {consumers[i].uid for i in initial if i < len(consumers)}
     first_order = []
     by_mid = {}
     attributed = {}
